@@ -5,6 +5,7 @@ mod chacha;
 mod distr;
 mod entropy;
 mod enumr;
+mod stat;
 mod fills;
 mod floats;
 mod mockutil;
@@ -33,6 +34,7 @@ fn dispatch(req: &Req) -> R<String> {
 		"bern" => distr::bern(req),
 		"std" => distr::std(req),
 		"enum" => enumr::enumerate(req),
+		"stat" => stat::stat(req),
 		"chacha" => chacha::chacha(req),
 		"slpblock" => chacha::slpblock(req),
 		"serde" => serde_rt::serde(req),
